@@ -1,5 +1,6 @@
 import CelmaVerif.Base.Proto
 import CelmaVerif.Model.FixedString
+import CelmaVerif.Model.FixedStringAlias
 /- line-protocol driver for the fixedstring component (C10, C11); see harness/fixed_string.cpp -/
 open CelmaVerif CelmaVerif.FixedString CelmaVerif.Proto
 
@@ -136,7 +137,11 @@ def parse (c : Cfg) (w : World) (toks : List String) : Option Op := do
   let N (tk : String) : Option Nat := num c w.s tk
   let I (tk : String) : Option ItArg := if tk == "end" then some .fin else (N tk).map .pos
   let TI (tk : String) : Option ItArg := if tk == "end" then some .fin else (num c w.s tk).map .pos
-  let P (tk : String) : Option (List Nat) := (srcOf "c:" tk).map (· ++ [0])
+  -- `self:<k>`: the pointer `c_str() + k` into the own buffer (k ≤ length()), a value for the model (`selfPtr`)
+  let P (tk : String) : Option (List Nat) :=
+    if tk.startsWith "self:" then
+      (num c w.s (tk.drop 5).toString).bind fun k => if k ≤ min w.s.len c.L then some (selfPtr w.s k) else none
+    else (srcOf "c:" tk).map (· ++ [0])
   let S (tk : String) : Option (List Nat) := srcOf "s:" tk
   match toks with
   | ["tset", d] => return .tset (← S d)
@@ -321,6 +326,19 @@ def step' (st : St) (line : String) : St × String :=
       let cu : Cfg := ⟨su, 2 ^ 64, lengthMod su⟩
       ({ c := c, cu := cu, w := some (World.init c cu) }, "ok")
     | _, _ => (st, "bad-op")
+  | "alias" :: toks =>      -- the FixedString / iterator-pair argument `t` of the operation is the object `s` itself
+    match st.w with
+    | none => (st, "bad-op")
+    | some w =>
+      match parse st.c w.aliased toks with
+      | none => (st, "bad-op")
+      | some op =>
+        if !aliasable op then (st, "bad-op")
+        else
+          match stepAliased st.c st.cu w op with
+          | .ok (w', o) => ({ st with w := some w' }, render st.c op w.aliased w' "ok" (fmtOut st.c o))
+          | .throw e => (st, render st.c op w.aliased w.aliased s!"throw {e.name}" s!"throw:{e.name}")
+          | .oob wh => (st, s!"oob {wh}")
   | toks =>
     match st.w with
     | none => (st, "bad-op")
